@@ -21,7 +21,7 @@ def install(enable_logging=False):
 
 
 def run_case(case, choose=None, aux=None, max_steps=60000, enable_logging=False, conf=None, prepare=None,
-             trace_lines=None):
+             trace_lines=None, pre_runs=0):
   """Runs the case's test under a fresh scheduler.
 
   aux: list of (name, fn) — fn(env) runs in its own managed thread started just before execute();
@@ -42,6 +42,17 @@ def run_case(case, choose=None, aux=None, max_steps=60000, enable_logging=False,
 
   def body(s):
     env['sched'] = s
+    s.base_step = None
+    for _ in range(pre_runs):
+      # earlier, undisturbed executions of the same Test object; the run under test starts from their leftovers
+      test.execute(test_start=start) if start is not None else test.execute()
+    if pre_runs:
+      del ctx.events[:]
+      ctx.body_calls.clear()
+      ctx.runif_calls.clear()
+      del ctx.inst[:], recs[:], b['cb_records'][:]
+      s.log('run-under-test-starts')
+    s.base_step = s.step
     threads = []
     for name, fn in aux or []:
       def target(fn=fn):
